@@ -217,7 +217,10 @@ def bin_kmu(
     # the squared k edges stay in float64: |k|^2 is an exact integer here, and an
     # edge rounded to float32 can land on it and move the whole shell one bin down
     kedges2 = (kedges / dk) ** 2
-    muedges2 = (muedges**2).astype(dtype)
+    # the squared mu edges and mu^2 itself stay in float64 as well: mu^2 is a ratio of
+    # two exact integers, and float32 (edge and quotient each rounded at ~6e-8) files
+    # modes within that distance of an edge on the wrong side of it
+    muedges2 = muedges.astype(np.float64) ** 2
 
     nthread = numba.get_num_threads()
     counts = np.zeros((nthread, Nk, Nmu), dtype=np.int64)
@@ -242,10 +245,9 @@ def bin_kmu(
             for k in range(kzlen):
                 kmag2 = dtype(i2 + j2 + k**2)
                 if kmag2 > 0:
-                    invkmag2 = kmag2**-1
-                    mu2 = dtype(k**2) * invkmag2
+                    mu2 = np.float64(k**2) / np.float64(i2 + j2 + k**2)
                 else:
-                    mu2 = dtype(0.0)  # matches nbodykit
+                    mu2 = np.float64(0.0)  # matches nbodykit
 
                 if kmag2 < kedges2[0]:
                     continue
@@ -258,7 +260,9 @@ def bin_kmu(
                 if mu2 < muedges2[0]:
                     continue
 
-                if mu2 > muedges2[-1]:
+                # (a single mu edge means no mu bins: a mode that equals it passes
+                # the closed range test, but there is no bin to search or fill)
+                if Nmu < 1 or mu2 > muedges2[-1]:
                     break
 
                 while kmag2 > kedges2[bk + 1]:
